@@ -63,3 +63,35 @@ class rename_duplicate_nodes:
                               result[0][j] in connected and ext[j] in connected), "int"),
         "connected_only_grows": lambda connected: forall(lambda v: implies(v in old(connected), v in connected), "Node"),
     }
+
+
+# ---- method='linear' raises ValueError exactly on grammars that are not linearly recursive (C02) -----------
+def two_unresolved(r, inputs):
+    # the rule has two right-hand-side edges whose labels are not among the already computed inputs
+    return exists(lambda a, b: 0 <= a and a < b and b < len(r.rhs.edges())
+                  and r.rhs.edges()[a].label not in inputs and r.rhs.edges()[b].label not in inputs, "int,int")
+
+
+@contract("fggs.sum_product.linear")
+class linear:
+    sig = {"fgg": "HRGView", "inputs": "opaque", "out_labels": "seq[EdgeLabel]", "semiring": "opaque"}
+    properties = ["C02"]
+    opaque_calls = ["FGGMultiShape", "MultiTensor", "sum_product_edges", "multi_solve", "print_duplicate"]
+    opaque_results = {"print_duplicate": "bool"}
+    loops = {
+        0: lambda fgg, inputs, out_labels, _i0: forall(
+            lambda i, r: implies(0 <= i and i < _i0 and out_labels[i] not in inputs
+                                 and r in fgg._rule_seq and r.lhs == out_labels[i], not two_unresolved(r, inputs)), "int,RuleV"),
+        1: lambda fgg, inputs, out_labels, n, _i0, _i1, _it1: (
+            forall(lambda i, r: implies(0 <= i and i < _i0 and out_labels[i] not in inputs
+                                        and r in fgg._rule_seq and r.lhs == out_labels[i], not two_unresolved(r, inputs)), "int,RuleV")
+            and forall(lambda j: implies(0 <= j and j < _i1, not two_unresolved(_it1[j], inputs)), "int")),
+    }
+    # cut: when the error message is being built, the current rule has two unresolved edges
+    checks = {"rhs = ' '.join((e.label.name for e in edges))": lambda rule, inputs: two_unresolved(rule, inputs)}
+    ensures = {"linearly_recursive": lambda fgg, inputs, out_labels: forall(
+        lambda i, r: implies(0 <= i and i < len(out_labels) and out_labels[i] not in inputs
+                             and r in fgg._rule_seq and r.lhs == out_labels[i], not two_unresolved(r, inputs)), "int,RuleV")}
+    raises = {"ValueError": lambda fgg, inputs, out_labels: exists(
+        lambda i, r: 0 <= i and i < len(out_labels) and out_labels[i] not in inputs
+        and r in fgg._rule_seq and r.lhs == out_labels[i] and two_unresolved(r, inputs), "int,RuleV")}
